@@ -6,6 +6,6 @@ Set Extraction KeepSingleton.
 Extraction "model_fd.ml"
   Z.add Z.sub Z.mul Z.div Z.modulo Z.abs Z.opp Z.leb Z.ltb Z.eqb Z.of_nat Z.to_nat Z.of_N Z.to_N
   errno jv
-  xfer c_str object_to_fd object_to_file_ext object_from_fd_ex object_from_fd object_from_file
+  xfer tokener parse2 c_str object_to_fd object_to_file_ext object_from_fd_ex object_from_fd object_from_file
   oflags TO_FILE_FLAGS FROM_FILE_FLAGS fsys fs_get fs_set object_to_file_with object_to_file_fs
   object_from_file_with object_from_file_fs.
